@@ -132,6 +132,22 @@ def zero_timeout(sid, ms):
     return s.done()
 
 
+def exit_while_parked(sid, code):
+    """the runtime exits while it is parked in its restore poll; the restore that is requested afterwards fails (there
+    is nobody to run the hook) - it is not reported successful"""
+    s = Scn(sid, ext=[], timeout_ms=1500, initCaching=True, fullEnv=True)
+    s.meta(family="restore", hook="exit-while-parked", order="poll-first", code=code)
+    s.init()
+    s.await_exec(kind="rt")
+    rp = s.call("rt", "restorenext", async_=True)
+    s.until_state("rt", "RestoreReady")
+    s.exit("rt", code=code)
+    s.sleep(60)
+    rt = s.call("", "restore", async_=True, tag=s.tag("R"), ms=400, label="A")
+    s.wait(rt)
+    return s.done()
+
+
 def scenarios(ctx):
     rnd = random.Random(ctx.seed * 181 + 18)
     out = []
@@ -161,6 +177,8 @@ def scenarios(ctx):
         out.append(zero_timeout("c18-zero%d" % (i + 1), ms))
     for i, gap in enumerate((40, 150) if ctx.quick else (0, 10, 40, 150, 400)):
         out.append(late_hook("c18-late%d" % (i + 1), gap))
+    for i, code in enumerate((1,) if ctx.quick else (0, 1, 137)):
+        out.append(exit_while_parked("c18-exitparked%d" % (i + 1), code))
     # plain mode: the snapshot routes and the credentials endpoint do not exist
     s = Scn("c18-plain", ext=[], timeout_ms=400)
     s.meta(family="restore-plain")
